@@ -331,4 +331,30 @@ def sf_isprim(ev, v):
     return VBool(z3.Or(T.Val.is_VI(z), T.Val.is_VB(z), T.Val.is_VN(z), T.Val.is_VBy(z), T.Val.is_VS(z)))
 
 
+def _i(ev, v):
+    return ev.eng.as_int(v)[0]
+
+
+def sf_lshift(ev, x, s):
+    return VInt(T.mulf(_i(ev, x), T.pow2(_i(ev, s))))
+
+
+def sf_rshift(ev, x, s):
+    return VInt(T.py_floordiv(_i(ev, x), T.pow2(_i(ev, s))))
+
+
+def sf_band(ev, x, m):
+    from .symex import band
+    return VInt(band(_i(ev, x), _i(ev, m)))
+
+
+def sf_bor(ev, a, b):
+    from .symex import bor
+    return VInt(bor(_i(ev, a), _i(ev, b)))
+
+
+def sf_bnot(ev, m):
+    return VInt(-_i(ev, m) - 1)
+
+
 SPECFUNCS = {k[3:]: v for k, v in list(globals().items()) if k.startswith('sf_')}
